@@ -281,8 +281,14 @@ StepRun ==
                     nilfn |-> (kind # "fn" /\ tv.t = "nil"),
                     caps |-> IF kind = "clo" /\ tv.t # "nil" THEN tv.caps ELSE <<>>,
                     args |-> IF kind = "imethod" /\ tv.t # "nil" THEN <<tv.v>> \o args0 ELSE args0]
-          IN /\ frames' = ReplaceTop(Advance([f EXCEPT !.defers = Append(@, d)]))
+              \* a defer statement in a range-over-func body names the frame of the enclosing function (5th operand)
+              tgt == IF Len(ins) >= 5 THEN store[env[ins[5]]] ELSE Len(frames)
+          IN /\ frames' = [ReplaceTop(Advance(f)) EXCEPT ![tgt].defers = Append(@, d)]
              /\ UNCHANGED <<store, out, status>>
+    [] k = "depth" ->     \* ["depth", x]  x := index of the current frame (the handle "deferat" uses)
+        /\ store' = [store EXCEPT ![env[ins[2]]] = Len(frames)]
+        /\ frames' = ReplaceTop(Advance(f))
+        /\ UNCHANGED <<out, status>>
     [] k = "ret" ->       \* ["ret", [exprs]]  (empty: bare return / named results already set)
         LET flt == FirstFaultSeq(ins[2], 1, env) IN
         IF flt # "none" THEN DoPanicFault(flt)
